@@ -121,8 +121,8 @@ def main(argv):
             kid, loops = loops_from_op(op)
             cases.append(Case(kid, loops, vals or pick_values(ck.rng, loops, 12)))
     else:
-        n = 60 if ck.tier == "quick" else 360
-        nv = 10 if ck.tier == "quick" else 14
+        n = 48 if ck.tier == "quick" else 360
+        nv = 9 if ck.tier == "quick" else 14
         cases = []
         for op, vals in CORPUS:
             kid, loops = loops_from_op(op)
